@@ -18,6 +18,7 @@ from typing import Any, Callable, Dict, List, Optional, Tuple
 import botocore.exceptions
 
 _real_time = _time.time
+_RealDateTime = datetime
 
 
 class VClock:
@@ -116,9 +117,10 @@ class FakeS3Store:
         return f'"etag-{self.gen:08d}"'
 
     def _last_modified(self, o: Obj) -> datetime:
-        # reported so that the caller's own "real now - LastModified" equals the VIRTUAL age
-        age = self.clock.now() - o.written_v
-        return datetime.fromtimestamp(_real_time() - age, tz=timezone.utc)
+        # stable per object version, on the virtual time axis; S3Env makes the library's
+        # `datetime.now(timezone.utc)` (function-level imports in lock_provider) and the garbage
+        # collector's time.time() read the same virtual clock, so ages are virtual
+        return _RealDateTime.fromtimestamp(o.written_v, tz=timezone.utc)
 
     def set_age(self, bucket: str, key: str, age_s: float) -> None:
         o = self.objects[(bucket, key)]
@@ -375,6 +377,49 @@ def _make_pyfs(store: FakeS3Store) -> Any:
     return pafs.PyFileSystem(Handler())
 
 
+class VirtualNow:
+    """Makes the library's function-level `from datetime import datetime; datetime.now(utc)`
+    (lock_provider's lease-age arithmetic) and the garbage collector's time.time() read the
+    virtual clock, so that ages against the double's LastModified are virtual."""
+
+    def __init__(self, clock: VClock):
+        self.clock = clock
+        self._saved: Dict[str, Any] = {}
+
+    def __enter__(self) -> "VirtualNow":
+        import datetime as _dtmod
+
+        import datashard.garbage_collector as gcm
+
+        clock = self.clock
+
+        class VDateTime(_RealDateTime):
+            @classmethod
+            def now(cls, tz: Any = None) -> Any:  # type: ignore[override]
+                return _RealDateTime.fromtimestamp(clock.now(), tz)
+
+        self._saved["dt"] = _dtmod.datetime
+        _dtmod.datetime = VDateTime  # type: ignore
+        self._saved["gctime"] = gcm.time
+
+        class _T:
+            def __getattr__(self_, n: str) -> Any:
+                if n == "time":
+                    return clock.now
+                return getattr(_time, n)
+
+        gcm.time = _T()  # type: ignore
+        return self
+
+    def __exit__(self, *a: Any) -> None:
+        import datetime as _dtmod
+
+        import datashard.garbage_collector as gcm
+
+        _dtmod.datetime = self._saved["dt"]  # type: ignore
+        gcm.time = self._saved["gctime"]  # type: ignore
+
+
 class S3Env:
     """Context manager installing the double and the DATASHARD_S3_* environment."""
 
@@ -400,6 +445,8 @@ class S3Env:
         pafs.S3FileSystem = lambda **kw: pyfs  # type: ignore
         self._saved["env"] = {k: os.environ.get(k) for k in self._envs()}
         os.environ.update(self._envs())
+        self._vnow = VirtualNow(st.clock)
+        self._vnow.__enter__()
         return self
 
     def _envs(self) -> Dict[str, str]:
@@ -420,6 +467,7 @@ class S3Env:
 
         boto3.session.Session.client = self._saved["client"]  # type: ignore
         pafs.S3FileSystem = self._saved["s3fs"]  # type: ignore
+        self._vnow.__exit__()
         for k, v in self._saved["env"].items():
             if v is None:
                 os.environ.pop(k, None)
